@@ -1,10 +1,13 @@
 #[cfg(not(feature = "std"))]
 use alloc::vec;
 
-use anyhow::ensure;
+use anyhow::{bail, ensure};
+use hashbrown::HashSet;
 
 use crate::field::extension::Extendable;
-use crate::fri::proof::{FriProof, FriQueryRound, FriQueryStep};
+use crate::fri::proof::{
+    CompressedFriProof, CompressedFriQueryRounds, FriProof, FriQueryRound, FriQueryStep,
+};
 use crate::fri::structure::FriInstanceInfo;
 use crate::fri::FriParams;
 use crate::hash::hash_types::RichField;
@@ -40,8 +43,9 @@ where
     } = proof;
 
     let cap_height = params.config.cap_height;
+    ensure!(commit_phase_merkle_caps.len() == params.reduction_arity_bits.len());
     for cap in commit_phase_merkle_caps {
-        ensure!(cap.height() == cap_height);
+        ensure!(cap.len() == 1 << cap_height);
     }
 
     for query_round in query_round_proofs {
@@ -80,6 +84,82 @@ where
     }
 
     ensure!(final_poly.len() == params.final_poly_len());
+
+    Ok(())
+}
+
+/// Checks the shape of a compressed FRI proof against the query indices it has to answer: each
+/// map holds exactly the entries these indices call for, with leaves and evaluations of the
+/// expected lengths. How many siblings a compressed Merkle path holds depends on the nodes it
+/// shares with the other paths; that is checked while decompressing.
+pub(crate) fn validate_compressed_fri_proof_shape<F, C, const D: usize>(
+    proof: &CompressedFriProof<F, C::Hasher, D>,
+    indices: &[usize],
+    instance: &FriInstanceInfo<F, D>,
+    params: &FriParams,
+) -> anyhow::Result<()>
+where
+    F: RichField + Extendable<D>,
+    C: GenericConfig<D, F = F>,
+{
+    let CompressedFriProof {
+        commit_phase_merkle_caps,
+        query_round_proofs,
+        final_poly,
+        pow_witness: _pow_witness,
+    } = proof;
+    let CompressedFriQueryRounds {
+        indices: _indices,
+        initial_trees_proofs,
+        steps,
+    } = query_round_proofs;
+
+    let cap_height = params.config.cap_height;
+    ensure!(commit_phase_merkle_caps.len() == params.reduction_arity_bits.len());
+    for cap in commit_phase_merkle_caps {
+        ensure!(cap.len() == 1 << cap_height);
+    }
+    ensure!(final_poly.len() == params.final_poly_len());
+    ensure!(steps.len() == params.reduction_arity_bits.len());
+
+    let mut initial_indices = HashSet::new();
+    let mut steps_indices = vec![HashSet::new(); steps.len()];
+    for &(mut index) in indices {
+        initial_indices.insert(index);
+        let Some(initial_trees_proof) = initial_trees_proofs.get(&index) else {
+            bail!("Missing initial trees proof for a query index.");
+        };
+        ensure!(initial_trees_proof.evals_proofs.len() == instance.oracles.len());
+        for ((leaf, merkle_proof), oracle) in initial_trees_proof
+            .evals_proofs
+            .iter()
+            .zip(&instance.oracles)
+        {
+            ensure!(leaf.len() == oracle.num_polys + salt_size(oracle.blinding && params.hiding));
+            ensure!(merkle_proof.len() + cap_height <= params.lde_bits());
+        }
+
+        let mut codeword_len_bits = params.lde_bits();
+        for (i, &arity_bits) in params.reduction_arity_bits.iter().enumerate() {
+            index >>= arity_bits;
+            codeword_len_bits -= arity_bits;
+            steps_indices[i].insert(index);
+            let Some(FriQueryStep {
+                evals,
+                merkle_proof,
+            }) = steps[i].get(&index)
+            else {
+                bail!("Missing query step for a query index.");
+            };
+            // The evaluation at the queried point is inferred rather than transmitted.
+            ensure!(evals.len() + 1 == 1 << arity_bits);
+            ensure!(merkle_proof.len() + cap_height <= codeword_len_bits);
+        }
+    }
+    ensure!(initial_trees_proofs.len() == initial_indices.len());
+    for (step, step_indices) in steps.iter().zip(&steps_indices) {
+        ensure!(step.len() == step_indices.len());
+    }
 
     Ok(())
 }
